@@ -35,7 +35,8 @@ func (d *driver) perRunWorker(a workerArgs, timeout time.Duration) ([]byte, erro
 		rs, rerr := readResults(one.Out)
 		os.Remove(one.Out)
 		if len(rs) != 1 {
-			return out, fmt.Errorf("run %d: no result (%v, %v)", i, err, rerr)
+			// one lost run (watchdog, crash) must not lose the rest of the shard
+			rs = []sim.RunResult{{Run: i, Trouble: fmt.Sprintf("run %d: no result (%v, %v): %s", i, err, rerr, tail(out, 1500))}}
 		}
 		d.attachRace(&rs[0], out)
 		b, _ := json.Marshal(&rs[0])
@@ -232,4 +233,3 @@ func (d *driver) minimiseC12(sc *sim.Scenario, try func(*sim.Scenario) *sim.Viol
 	}
 	return cur
 }
-
